@@ -20,6 +20,7 @@ import (
 	"github.com/tencent/goom/verifsim/simenv"
 	"github.com/tencent/goom/verifsim/world"
 	"github.com/tencent/goom/verifsim/worlds/hist"
+	"github.com/tencent/goom/verifsim/worlds/originw"
 	"github.com/tencent/goom/verifsim/zoo/asm"
 	"github.com/tencent/goom/verifsim/zoo/inert"
 )
@@ -80,7 +81,14 @@ func (W) Gen(prop string, seed uint64, tier string) *world.Plan {
 	r := rng.Derive(seed, 0x3e3)
 	p := &world.Plan{Prop: prop, World: "mem", Seed: seed, Knobs: map[string]int{}}
 	p.Sched.MaxSteps = 100000
-	switch r.Pick(45, 15, 40) {
+	switch r.Pick(40, 15, 35, 10) {
+	case 3: // trampoline writes: origin placeholders of exactly K bytes with a neighbour routine behind them
+		p.Knobs["mode"] = 2
+		var ops []world.Op
+		for i, n := 0, 8+r.Intn(16); i < n; i++ {
+			ops = append(ops, world.Op{K: "shape", N: r.Intn(len(asm.Shapes)), F: 2 + r.Intn(len(asm.TightSizes)), W: uint64(r.Intn(14))})
+		}
+		p.Tasks = append(p.Tasks, world.Task{Role: "trampolines", Ops: ops})
 	case 0: // arena, concurrent writers and callers, no faults
 		p.Knobs["mode"] = 0
 		p.Sched.Permille = []int{50, 300, 1000}[r.Intn(3)]
@@ -302,6 +310,36 @@ func (W) Exec(p *world.Plan, env *world.Env) {
 		execSweep(p, env, arenaRegion)
 		return
 	}
+	if p.Knobs["mode"] == 2 {
+		// a write for an origin placeholder must stay inside the placeholder's own body
+		if len(p.Tasks) != 1 {
+			env.Res.Verdict = "invalid"
+			return
+		}
+		originw.ExtraRegions = []simenv.Region{arenaRegion}
+		at := ""
+		task := func() {
+			for i, op := range p.Tasks[0].Ops {
+				simcore.Yield(simcore.SiteOp, uintptr(i))
+				if op.K != "shape" {
+					continue
+				}
+				at = fmt.Sprintf("op#%d shape %s", i, asm.Shapes[op.N%len(asm.Shapes)].Name)
+				originw.DoShape(env, nil, op, at)
+				env.Op()
+			}
+		}
+		res := simcore.Run(p.SchedConfig(), []func(){task})
+		env.Res.Merge(res)
+		if pv := res.Panics[0]; pv != nil {
+			if _, ok := pv.(world.Failure); !ok && !env.Failed() {
+				env.Res.At = at
+				env.FailNoUnwind("crash/panic", "unexpected panic at %s: %v", at, pv)
+			}
+		}
+		env.Res.Nontriv = true
+		return
+	}
 	faults := p.Knobs["faults"] == 1
 	s := arena
 	pageSize := 4096
@@ -381,7 +419,7 @@ func (W) Exec(p *world.Plan, env *world.Env) {
 					if bad := s.compare(segLo, segLo+seg); bad >= 0 {
 						env.FailAt(at, "mem/stray-arena-byte", "arena byte %d (outside the written range [%d,%d)) differs from the model", bad, abs, abs+ln)
 					}
-					if msg := img.Check([]simenv.Region{arenaRegion}); msg != "" {
+					if msg := img.Check(append(originw.ShapeRegions(img), arenaRegion)); msg != "" {
 						env.FailAt(at, "image/stray", "%s", msg)
 					}
 					if !faults {
@@ -453,7 +491,7 @@ func (W) Exec(p *world.Plan, env *world.Env) {
 		env.FailNoUnwind("mem/stray-arena-byte", "arena byte %d differs from the model at quiescence", bad)
 		return
 	}
-	if msg := img.Check([]simenv.Region{arenaRegion}); msg != "" {
+	if msg := img.Check(append(originw.ShapeRegions(img), arenaRegion)); msg != "" {
 		env.FailNoUnwind("image/stray", "%s", msg)
 		return
 	}
@@ -488,7 +526,7 @@ func execSweep(p *world.Plan, env *world.Env, arenaRegion simenv.Region) {
 			var err error
 			pv := catch(func() { g, err = patch.Ptr(entry, repl) })
 			env.Check()
-			base := []simenv.Region{arenaRegion}
+			base := append(originw.ShapeRegions(img), arenaRegion)
 			if pv != nil || err != nil || g == nil {
 				env.Probe("sweep_refused")
 				if msg := img.Check(base); msg != "" {
